@@ -126,6 +126,8 @@ type c11sCase struct {
 	Note     string        `json:"note,omitempty"`
 	ClosedAt time.Duration `json:"closed_at_ns,omitempty"`
 	Path     string        `json:"server_path,omitempty"` // from the server's output: no-add | add-early-exit | add-readloop | cN-dM (re-used id)
+
+	Stall *c11sStallInfo `json:"non_reader,omitempty"` // set for clients that stay connected and stop reading (c11_serv_stall.go)
 }
 
 func (c *c11sCase) class() c11sClass { return c11sClass{c.Point, c.Close} }
@@ -439,6 +441,7 @@ type c11sSess struct {
 
 	host, by *vk.WSClient
 	items    [][]*c11sCase // an item is executed by one worker, cases in order (re-used id: two cases)
+	extra    []*c11sCase   // connections driven outside the worker pool: non-readers and the connections that replace them
 	byID     map[string][]*c11sCase
 
 	obsN      int
@@ -455,12 +458,24 @@ type c11sSess struct {
 	lastMarker   string
 }
 
-func (s *c11sSess) cases() []*c11sCase {
+// vanishers: the cases executed by the worker pool.
+func (s *c11sSess) vanishers() []*c11sCase {
 	var out []*c11sCase
 	for _, it := range s.items {
 		out = append(out, it...)
 	}
 	return out
+}
+
+// cases: every connection of the session that is (to be) gone at quiescence.
+func (s *c11sSess) cases() []*c11sCase {
+	return append(s.vanishers(), s.extra...)
+}
+
+func (s *c11sSess) addExtra(c *c11sCase) {
+	c.Sess = s.Idx
+	s.byID[c.ID] = append(s.byID[c.ID], c)
+	s.extra = append(s.extra, c)
 }
 
 type c11sAgg struct {
@@ -500,6 +515,13 @@ type c11sRound struct {
 	aborted    atomic.Bool  // the server stopped serving joins (reported): the rest of the round is skipped
 	ioTimeouts atomic.Int32 // client steps that ended by the watchdog
 	stallMu    sync.Mutex
+
+	// non-readers (c11_serv_stall.go)
+	stallMu2        sync.Mutex
+	stallers        []*c11sStaller
+	stallersStarted int
+	churnDone       atomic.Int64
+	probeSeq        atomic.Int64
 }
 
 func (rd *c11sRound) caseSpec(extra map[string]any) map[string]any {
@@ -604,6 +626,7 @@ func (rd *c11sRound) runVanishers(w int) {
 			}
 			c11sVanish(rd.srv.Port, jb.s.Join, "host", vc)
 			rd.afterCase(vc)
+			rd.churnTick()
 			if jb.s.host != nil {
 				if jb.s.host.SendText(c11sEnvJSON(protocol.TypeOffer, "")) == nil {
 					rd.agg.count("host_broadcasts_during_churn", 1)
@@ -1180,7 +1203,41 @@ func (rd *c11sRound) runListing() {
 			}
 		}
 	}
-	rd.runVanishers(6)
+	// the reader-behaviour dimension (c11_serv_stall.go): peers that stay connected and stop reading, blocked before the
+	// churn starts; some are replaced by a second connection under their id, some leave in the middle of the churn, the
+	// rest after it. All of them are gone at quiescence and judged like every other departed peer.
+	churnJobs := 0
+	for _, s := range rd.sess {
+		churnJobs += len(s.items)
+	}
+	nr := 0
+	for _, s := range rd.sess {
+		sid := func() string { nr++; return fmt.Sprintf("nr%d-%03d", s.Idx, nr) }
+		switch s.Kind {
+		case "hosted":
+			rd.stallPlan(s, sid, "churn", c11sStallPoints, 4, churnJobs)
+		case "receivers-only":
+			rd.stallPlan(s, sid, "churn", []string{"stalled-own-errors"}, 2, churnJobs)
+		}
+	}
+	tt := time.Now()
+	lap := func(what string) {
+		if os.Getenv("C11S_TIMING") != "" {
+			vk.Logf("c11serv round %d: %s %.2fs", rd.cfg.Idx, what, time.Since(tt).Seconds())
+		}
+		tt = time.Now()
+	}
+	rd.startStallers()
+	lap("non-readers blocked")
+	if rd.progressAll("stalled") && rd.runReconnects() {
+		lap("reconnects")
+		rd.runVanishers(6)
+		lap("churn")
+		rd.progressAll("churn")
+	}
+	rd.releaseStallers(nil)
+	rd.progress("departure", nil)
+	lap("departure")
 	if rd.aborted.Load() {
 		rd.serverPaths()
 		return
@@ -1221,6 +1278,38 @@ func (rd *c11sRound) runSlots() {
 			s.add(&c11sCase{Point: cl.Point, Close: cl.Close, Role: "receiver", ID: fmt.Sprintf("v%d-%03d", s.Idx, n), IDCls: "fresh"})
 		}
 	}
+	// non-readers as receivers under the limit: per stall point a session whose N slots are all held by non-readers, and
+	// one session with two of them, one of which is replaced by a second connection under its id
+	nr := 0
+	for i, p := range append(append([]string{}, c11sStallPoints...), c11sStallPoints[int(rd.cfg.Seed%3)]) {
+		s, err := rd.newSession("slots")
+		if err != nil {
+			if !rd.suspectStall("session setup") {
+				rd.inconcl("session setup (slots, non-readers): %v", err)
+			}
+			return
+		}
+		sid := func() string { nr++; return fmt.Sprintf("nr%d-%03d", s.Idx, nr) }
+		fill := "addressed"
+		if p == "stalled-own-errors" {
+			fill = "own-errors"
+		}
+		if i < len(c11sStallPoints) {
+			for b := 0; b < N; b++ {
+				rd.newStaller(s, sid(), p, []string{"fin", "rst"}[b%2], fill, "slots", nil).info.Overflow = b == 1
+			}
+		} else {
+			rd.newStaller(s, sid(), p, "rst", fill, "slots", nil)
+			sc := []c11sClass{{"joined", "fin"}, {"peer-list-read", "rst"}, {"request-sent", "fin"}, {"upgraded-unread", "rst"}}[int(rd.cfg.Seed>>2)%4]
+			rd.newStaller(s, sid(), p, "fin", fill, "reconnect", &sc)
+		}
+	}
+	rd.startStallers()
+	if !(rd.progressAll("stalled") && rd.runReconnects()) {
+		rd.releaseStallers(nil)
+		rd.serverPaths()
+		return
+	}
 	// per session: batches of N concurrent vanishers; sessions in parallel
 	slots := rd.sess[1:]
 	vk.ParallelDo(len(slots), 6, func(i int) {
@@ -1239,12 +1328,15 @@ func (rd *c11sRound) runSlots() {
 			wg.Wait()
 			// give the next batch a chance to be admitted: wait (bounded, no verdict) for the server to drop this batch's sockets
 			for t0 := time.Now(); time.Since(t0) < 3*time.Second; time.Sleep(20 * time.Millisecond) {
-				if open, ok := rd.socketGate(s.cases()[:min(b+N, len(s.items))]); !ok || len(open) == 0 {
+				if open, ok := rd.socketGate(s.vanishers()[:min(b+N, len(s.items))]); !ok || len(open) == 0 {
 					break
 				}
 			}
 		}
 	})
+	rd.progressAll("slots")
+	rd.releaseStallers(nil)
+	rd.progress("departure", nil)
 	if rd.aborted.Load() {
 		rd.serverPaths()
 		return
@@ -1317,7 +1409,7 @@ func (rd *c11sRound) runSlots() {
 	}
 	rd.serverPaths()
 	for _, s := range slots {
-		cl := s.items[0][0].class()
+		cl := s.cases()[0].class()
 		rd.agg.count("sessions_judged_at_quiescence", 1)
 		rd.agg.count("slot_sessions_judged", 1)
 		listed := c11sListedIDs(lists[s.Idx])
@@ -1337,10 +1429,10 @@ func (rd *c11sRound) runSlots() {
 			rd.inconcl("slots: session %d (%s): %d of %d receivers admitted, departed listed %v, but server still holds %d sockets / canaries %d; no verdict", s.Idx, cl, len(s.slotHeld), N, ghosts, len(open), canaryOK)
 			continue
 		}
-		spec := rd.caseSpec(map[string]any{"session_kind": "slots", "max_receivers_per_sender": N, "disconnect_point": cl.Point, "close": cl.Close, "vanished_receivers": len(s.items)})
+		spec := rd.caseSpec(map[string]any{"session_kind": "slots", "max_receivers_per_sender": N, "disconnect_point": cl.Point, "close": cl.Close, "vanished_receivers": len(s.cases())})
 		detail := map[string]any{"receivers_admitted": len(s.slotHeld), "peer_list_of_last_admitted": c11sIDs(lists[s.Idx]), "cases": s.cases(), "canary_leaves_confirmed": canaryOK, "server_log_tail": rd.srv.LogTail(2500)}
 		if len(s.slotHeld) < N {
-			R.Violate("serv:receiver-slot-held-by-departed-peer:"+cl.String(), fmt.Sprintf("after %d receivers disappeared at '%s' (close: %s) only %d of %d real receivers are admitted (\"receiver limit reached\") although the sender is the only live connection; ordinary leavers on the same server were delisted meanwhile", len(s.items), cl.Point, cl.Close, len(s.slotHeld), N), spec, detail)
+			R.Violate("serv:receiver-slot-held-by-departed-peer:"+cl.String(), fmt.Sprintf("after %d receivers disappeared at '%s' (close: %s) only %d of %d real receivers are admitted (\"receiver limit reached\") although the sender is the only live connection; ordinary leavers on the same server were delisted meanwhile", len(s.cases()), cl.Point, cl.Close, len(s.slotHeld), N), spec, detail)
 		}
 		if len(ghosts) > 0 {
 			R.Violate("serv:departed-peer-still-listed:"+cl.String(), fmt.Sprintf("receivers that disappeared at '%s' (close: %s) are still named in the peer list sent to a later joiner: %v", cl.Point, cl.Close, ghosts), spec, detail)
@@ -1380,6 +1472,28 @@ func (rd *c11sRound) runExpiry() {
 			}
 		}
 	}
+	// non-readers that are still blocked when their session expires (hub.CloseSession has to get rid of them), one per
+	// stall point and session, and one whose id is taken over by a second connection first
+	nr := 0
+	for _, s := range rd.sess {
+		sid := func() string { nr++; return fmt.Sprintf("nr%d-%03d", s.Idx, nr) }
+		for i, p := range c11sStallPoints {
+			fill := []string{"addressed", "broadcast"}[(i+s.Idx)%2]
+			if p == "stalled-own-errors" {
+				fill = "own-errors"
+			}
+			rd.newStaller(s, sid(), p, []string{"fin", "rst"}[(i+s.Idx)%2], fill, "expiry", nil).info.Overflow = (i+s.Idx)%3 == 0
+		}
+		sc := []c11sClass{{"joined", "fin"}, {"request-sent", "rst"}, {"peer-list-read", "wsclose"}}[s.Idx%3]
+		rd.newStaller(s, sid(), c11sStallPoints[(s.Idx+int(rd.cfg.Seed%3))%3], "rst", "addressed", "reconnect", &sc)
+	}
+	// (beside the vanishers, not before them: the sessions live for 3 s only)
+	nonReaders := make(chan struct{})
+	go func() {
+		defer close(nonReaders)
+		rd.startStallers()
+		_ = rd.progressAll("stalled") && rd.runReconnects()
+	}()
 	// vanishers run until their session's join code is refused (expired) – bounded by the case list
 	var mu sync.Mutex
 	expired := map[int]bool{}
@@ -1387,7 +1501,7 @@ func (rd *c11sRound) runExpiry() {
 	for k := 0; ; k++ {
 		any := false
 		for _, s := range rd.sess {
-			if cs := s.cases(); k < len(cs) {
+			if cs := s.vanishers(); k < len(cs) {
 				jobs = append(jobs, cs[k])
 				any = true
 			}
@@ -1419,16 +1533,25 @@ func (rd *c11sRound) runExpiry() {
 		time.Sleep(10 * time.Millisecond)
 	})
 	rd.agg.count("expiry_round_vanishers_run", ran)
+	<-nonReaders
 	if rd.aborted.Load() {
+		rd.releaseStallers(nil)
 		rd.serverPaths()
 		return
 	}
-	// wait for the expiry itself (bounded; the lifetime is 3 s): "session expired" lines of the server
+	// wait for the expiry itself (bounded; the lifetime is 3 s): "session expired" lines of the server. The non-readers
+	// stay for the first part of the wait (coverage: how many sessions expired with a blocked non-reader in them).
 	for t0 := time.Now(); time.Since(t0) < 20*time.Second; time.Sleep(50 * time.Millisecond) {
 		if rd.srv.LogCount("session expired session_id=") >= len(rd.sess) || !rd.srv.Alive() {
 			break
 		}
+		if time.Since(t0) > 8*time.Second {
+			rd.releaseStallers(nil) // idempotent
+		}
 	}
+	rd.expiredWithNonReaders()
+	rd.progress("expiry", nil)
+	rd.releaseStallers(nil)
 	exp := rd.srv.LogCount("session expired session_id=")
 	rd.agg.count("sessions_expired_with_clients_connected", exp)
 	rd.serverPaths()
@@ -1464,7 +1587,8 @@ func (rd *c11sRound) runExpiry() {
 
 func runC11Serv(e *Env) {
 	R := e.R
-	R.Rule = "evaluations = client connections driven against the real thruserv that ended at a chosen point of their life (9 disconnect points x FIN/RST/close frame, receiver/sender role, fresh/re-used id); " +
+	R.Rule = "evaluations = client connections driven against the real thruserv that ended at a chosen point of their life (9 disconnect points x FIN/RST/close frame, receiver/sender role, fresh/re-used id; " +
+		"plus non-readers: 3 stall points x FIN/RST that stay connected without reading until the server-side write is blocked, alone / replaced by a second connection under their id / during the churn / holding receiver slots / until the session expires); " +
 		"a distinct non-trivial case = (server configuration, session kind, disconnect point/close, role, id class, path the server's handler took per its own output: no-add | add-early-exit | add-readloop) of a case that reached its point"
 	bin := filepath.Join(e.BinDir, "thruserv")
 	if _, err := os.Stat(bin); err != nil {
@@ -1542,6 +1666,11 @@ func runC11Serv(e *Env) {
 	R.SetExtra("serv_counters", c)
 	R.SetExtra("serv_per_disconnect_class", agg.perClass)
 	R.SetExtra("serv_wall_s", time.Since(t0).Seconds())
+	if c11sDiagBroken.Load() {
+		R.SetExtra("serv_kernel_queue_lookup", "/proc/net/tcp* (exact netlink lookups not available)")
+	} else {
+		R.SetExtra("serv_kernel_queue_lookup", "NETLINK_SOCK_DIAG exact lookups")
+	}
 
 	if len(R.Violations) > 0 {
 		return // a refuting execution was found; the minimum-observation rules are about passing runs
@@ -1561,5 +1690,28 @@ func runC11Serv(e *Env) {
 	R.Require(c["connected_peers_probed"] >= 6 && c["uninvolved_peers_still_connected"] >= 6, "too few connected (uninvolved) peers probed")
 	R.Require(c["sessions_expired_with_clients_connected"] >= 3 && c["joins_served_after_expiries"] >= 1, "expiry round did not complete")
 	R.Require(c["server_alive_checks"] >= len(rounds), "server health not checked in every round")
+	// the reader-behaviour dimension: every stall point and fill was driven to a blocked server-side write, in every round
+	// kind and combined with every event, and the canaries were asked while the writes were blocked
+	for _, p := range c11sStallPoints {
+		R.Require(c["nonreader_blocked:"+p] >= 4, fmt.Sprintf("non-readers of class %s with a blocked server-side write: only %d", p, c["nonreader_blocked:"+p]))
+		for _, cl := range []string{"fin", "rst"} {
+			m := agg.perClass[p+"/"+cl]
+			R.Require(m["reached"] >= 2, fmt.Sprintf("non-reader class %s/%s blocked only %d times", p, cl, m["reached"]))
+		}
+	}
+	for _, f := range []string{"addressed", "broadcast", "own-errors"} {
+		R.Require(c["nonreader_blocked_fill:"+f] >= 3, fmt.Sprintf("non-readers blocked by %s traffic: only %d", f, c["nonreader_blocked_fill:"+f]))
+	}
+	for _, k := range []string{"listing", "slots", "expiry"} {
+		R.Require(c["nonreader_blocked_round:"+k] >= 3, fmt.Sprintf("blocked non-readers in %s rounds: only %d", k, c["nonreader_blocked_round:"+k]))
+	}
+	for _, ev := range []string{"stalled", "reconnect", "churn", "slots", "expiry", "departure"} {
+		R.Require(c["progress_probes_served:"+ev] >= 1, fmt.Sprintf("no canary of the uninvolved was asked after event '%s' of a non-reader's history", ev))
+	}
+	R.Require(c["reconnects_over_a_blocked_nonreader"] >= 6, fmt.Sprintf("only %d second connections came under the id of a blocked non-reader", c["reconnects_over_a_blocked_nonreader"]))
+	R.Require(c["progress_probes_served_with_blocked_nonreader:reconnect"] >= 6, fmt.Sprintf("only %d canaries after a reconnect over a blocked non-reader", c["progress_probes_served_with_blocked_nonreader:reconnect"]))
+	R.Require(c["connected_nonreaders_probed"] >= 10 && c["senders_of_a_nonreaders_session_answered"] >= 10, "too few probes of the sender / the routability of a connected non-reader")
+	R.Require(c["nonreaders_with_hub_queue_overflowed"] >= 6 && c["nonreader_overflowed_event:reconnect"] >= 2, fmt.Sprintf("only %d blocked non-readers had more messages routed to them than the hub queues (%d of them replaced by a reconnect)", c["nonreaders_with_hub_queue_overflowed"], c["nonreader_overflowed_event:reconnect"]))
+	R.Require(c["sessions_expired_with_a_blocked_nonreader"] >= 1, "no session expired while a blocked non-reader was in it")
 	R.Require(c["server_hook_hits:hub.remove.afterUnlink"] >= 100, fmt.Sprintf("the server's own remove path was observed only %d times (hook log)", c["server_hook_hits:hub.remove.afterUnlink"]))
 }
